@@ -22,7 +22,7 @@ RULE = ("generated library class + 2 clients x import style x field usage shapes
         "options, import styles, usage shapes present, outcome)")
 ASSUMPTIONS = ["receivers are statically determined (instance assigned once from the class in the same scope)",
                "field values are ints; generated expressions are pure"]
-BUDGET = {"quick": (2500, 200), "thorough": (80000, 480)}
+BUDGET = {"quick": (2500, 240), "thorough": (35000, 900)}
 EXHAUSTIVE = {}
 CASE_TIMEOUT = 300
 REQUIRE = {"performed_and_run": 300}
